@@ -109,7 +109,7 @@ def mk_value(rng, dbtick):
 
 
 OOD_KEYS = [b"notab", b"two\ttabs\there", b"#c \tT", b"nospace\tT", b"\x02ctl \tT", b"cr\r \tT", b" \tT", b"a \t", b"\tT",
-            b"lf \tT\nq", b"a \tt\x0b", b"\x7f \tT", b"\xe4\xb8\xad \tT"]
+            b"a \tt\x0b", b"\x7f \tT", b"\xe4\xb8\xad \tT"]
 OOD_VALUES = [b"", b"c=3", b"c=x d=1 t=5", b"t=7 c=2", b"c=3 d=zz t=9", b"c=-2147483649 t=3", b"c= 4 d=1 t= 5",
               b"c=+4  d=.5 t=+6", b"c=4x d=1e3 t=9z", b"t=-1 c=2", b"t=18446744073709551616", b"c=1 d=inf t=2",
               b"c=1 d=-NaN t=2", b"x=1 c=9", b"c==3", b"=", b"c=2147483648", b"c=\t12 t=\n8", b"c=5 d=1 t=3 c=6"]
@@ -222,6 +222,12 @@ def boundary_cases(prefix):
         ents = {k: v(2, 1) for k in [k1, k2, k3][:nent]}
         add(-nent, (10, {k1: v(1, 1)}), (20, ents), [("merge", 0, 1)])
         add(-nent, (10, {}), (20, ents), [("backup", 1, None), ("restore", 0, 1)], paint=True)
+    # out-of-domain, model agreement only: a key with a line break splits into two snapshot lines and the
+    # packed value of the first leaks into the key of the second (kept out of the random stream: once such
+    # a key is re-packed by later merges its bytes depend on the double, which the model erases)
+    out.append(dict(id="%s%d" % (prefix, n), g=0, files={}, ood=True, paint=False,
+                    dbs={0: (5, {k1: v(1, 1)}), 1: (9, {b"lf \tT\nq": v(4, 2), k2: v(-2, 3)})},
+                    ops=[("backup", 1, None), ("restore", 0, 1), ("ubackup", 1, 0), ("urestore", 0, 0)]))
     return out
 
 
@@ -311,6 +317,12 @@ def norm_files(line):
         flush()
         if m and len(m.group(2)) % 2 == 0:
             body = DEE_RE.sub(b" d=* t=", unhx(m.group(2)))
+            ls = body.split(b"\n")
+            if any(l.count(b" d=* t=") >= 2 for l in ls):
+                # a key that itself contains a packed value (out-of-domain): its place in the file depends on the double
+                head = [l for l in ls if l.startswith(b"#")]
+                rest = sorted(l for l in ls if not l.startswith(b"#"))
+                body = b"\n".join(head + rest)
             out.append("%s=%s" % (m.group(1), hx(body)))
         else:
             out.append(p)
@@ -425,10 +437,12 @@ def run(ctx):
     facts = udb_inits.generate()
     ctx.coverage["translated_facts"] = {k: facts[k] for k in ("ok", "problems", "merger_fields", "merger_fields_read",
                                                               "importer_fields", "value_fields_zero_default",
-                                                              "ctor_inits_merged_entries")}
+                                                              "ctor_inits_merged_entries", "uninitialised_locals",
+                                                              "inspected_functions")}
     ctx.coverage["trusted_base"] = [
         "Coq 8.16.1 kernel + vm_compute (the generated facts of Gen/Inits.v, examples); no native_compute",
-        "translator gen/udb_inits.py (clang -ast-dump=json of src/rime/dict/user_db.cc -> member initialisation facts; refuses with translator_ok := false)",
+        "translator gen/udb_inits.py (clang -ast-dump=json of user_db.cc, tsv.cc, db_utils.cc, table_db.cc, user_dict_manager.cc -> member "
+        "initialisation facts and the list of automatic variables without initialiser; refuses with translator_ok := false)",
         "Udb/Value.v Merge.v Tsv.v Manager.v as a port of user_db.cc, db_utils.cc, tsv.cc, table_db.cc, level_db.cc (QueryAll), user_dict_manager.cc",
         "extraction: ExtrOcamlBasic only; ocaml/common/glue*.ml + ocaml/c17/driver.ml are conversion glue",
         "harness/c17/c17.cc on the ASan+UBSan build of /repo's working tree; valgrind memcheck on the plain build",
